@@ -4,9 +4,9 @@ import BvaProofs.Refine
 
 `Api.bitop op v x` is the L1 model of `v op= x` / `v op x` in every syntactic form (they all reach
 the same three bodies per implementation), `Api.not v byRef` of `!v` / `!&v`.
-Proved for a right-hand side that is a vector of any implementation, word width and length
-(`C04_bitop`); the native-integer right-hand sides are the same operation on the temporary the code
-builds from the integer (`Api.liftUInt`), whose construction is covered by C11.
+Proved for a right-hand side `x : Api.Rhs` that is a vector of any implementation, word width and length,
+or a native unsigned integer of any of the six types (lifted by the code to a temporary vector,
+`Api.liftUInt`, proved to denote the integer).
 -/
 namespace Bva
 
@@ -23,30 +23,32 @@ theorem C04_spec_bits (op : BitOp) (a x : BV) (ha : a.WF) (i : Nat) :
 /-- L1 refines L0 for every implementation of the subject and every implementation, word width and
 length of the right-hand side: the result satisfies the storage invariant (no bit of `x` at an index
 ≥ `len v` survives anywhere in storage) and its abstraction is the spec. -/
-theorem C04_bitop (op : BitOp) (v x : Vec) (hv : v.Inv) (hx : x.Inv) :
-    (Api.bitop op v (.vec x)).Inv ∧ (Api.bitop op v (.vec x)).abs = op.spec v.abs x.abs := by
-  have hxa := hx.any
-  have hxe := Vec.any_abs x
+theorem C04_bitop (op : BitOp) (v : Vec) (x : Api.Rhs) (hv : v.Inv) (hx : x.Inv) :
+    (Api.bitop op v x).Inv ∧ (Api.bitop op v x).abs = op.spec v.abs x.spec := by
   rw [BitOp.spec_eq_match]
   cases v with
   | f w s =>
-    have r := Bvf.bitopAssign_refines op s x.any hv.1.pos hv.2
+    obtain ⟨hxa, hxe⟩ := Api.Rhs.any_ok (.f w s) x hx
+    have r := Bvf.bitopAssign_refines op s _ hv.1.pos hv.2
       (fun i j hi hj => Bvf.rhsWord_bits hv.1 _ _ hxa i j hi hj)
     rw [hxe] at r
     exact ⟨⟨hv.1, r.1⟩, r.2.1⟩
   | d s =>
-    have r := Bvd.bitopAssign_refines op s x.any hv (fun i j hj => Bvd.rhsWords_bits _ hxa i j hj)
+    obtain ⟨hxa, hxe⟩ := Api.Rhs.any_ok (.d s) x hx
+    have r := Bvd.bitopAssign_refines op s _ hv (fun i j hj => Bvd.rhsWords_bits _ hxa i j hj)
     rw [hxe] at r
     exact ⟨r.1, r.2.1⟩
   | a b =>
     cases b with
     | fixed s =>
-      have r := Bvf.bitopAssign_refines op s x.any (by decide) hv.1
+      obtain ⟨hxa, hxe⟩ := Api.Rhs.any_ok (.a (.fixed s)) x hx
+      have r := Bvf.bitopAssign_refines op s _ (by decide) hv.1
         (fun i j hi hj => Bvf.rhsWord_bits wok64 _ _ hxa i j hi hj)
       rw [hxe] at r
       exact ⟨⟨r.1, r.2.2.trans hv.2⟩, r.2.1⟩
     | dynamic s =>
-      have r := Bvd.bitopAssign_refines op s x.any hv (fun i j hj => Bvd.rhsWords_bits _ hxa i j hj)
+      obtain ⟨hxa, hxe⟩ := Api.Rhs.any_ok (.a (.dynamic s)) x hx
+      have r := Bvd.bitopAssign_refines op s _ hv (fun i j hj => Bvd.rhsWords_bits _ hxa i j hj)
       rw [hxe] at r
       exact ⟨r.1, r.2.1⟩
 
@@ -68,9 +70,9 @@ theorem C04_not (v : Vec) (hv : v.Inv) (byRef : Bool) :
       | false => have r := Bvd.not_refines s hv; exact ⟨r.1, r.2.1⟩
 
 /-- the result depends only on the abstractions of the operands (no hidden state) -/
-theorem C04_bits_only (op : BitOp) (v v' x x' : Vec) (hv : v.Inv) (hv' : v'.Inv) (hx : x.Inv) (hx' : x'.Inv)
-    (e1 : v.abs = v'.abs) (e2 : x.abs = x'.abs) :
-    (Api.bitop op v (.vec x)).abs = (Api.bitop op v' (.vec x')).abs := by
+theorem C04_bits_only (op : BitOp) (v v' : Vec) (x x' : Api.Rhs) (hv : v.Inv) (hv' : v'.Inv) (hx : x.Inv) (hx' : x'.Inv)
+    (e1 : v.abs = v'.abs) (e2 : x.spec = x'.spec) :
+    (Api.bitop op v x).abs = (Api.bitop op v' x').abs := by
   rw [(C04_bitop op v x hv hx).2, (C04_bitop op v' x' hv' hx').2, e1, e2]
 
 /-- non-vacuity: `zeros(4) | 0xF0` on a `Bvf<u8,1>` stays zero (the defect D2 input) -/
